@@ -41,6 +41,8 @@ def c01(D, h):
         bad.append('top-level ids %s, expected %s' % (sorted(tops, key=str), sorted(want_tops, key=str)))
     seen = collections.Counter()
     for tid, top in tops.items():
+        if top.is_singleton() is not False:
+            bad.append('is_singleton() of the top-level HOG %s is %r' % (tid, top.is_singleton()))
         lst_ = top.get_all_descendant_genes()
         m = sorted(x.unique_id for x in lst_)
         seen.update(m)
